@@ -18,7 +18,7 @@ def table_digest(df, drop_suffix=('-algtime',)):
     return hashlib.sha1(blob.encode()).hexdigest()
 
 
-def _build(sc, workdir):
+def _build(sc, workdir, dm=None):
     import shutil
     from vt import trace as T
     from vt.runner import build, quiet
@@ -29,7 +29,7 @@ def _build(sc, workdir):
     os.chdir(workdir)
     try:
         with quiet():
-            sim, env = build(sc, '.', budget=step_budget(sc))
+            sim, env = build(sc, '.', budget=step_budget(sc), dm=dm)
     finally:
         os.chdir(cwd)
     return T.Trace(sc, sim, env)
@@ -66,6 +66,15 @@ def run_once(sc, workdir):
     return _run(_build(sc, workdir), workdir)
 
 
+def run_shared_delay_model(sc, workdir):
+    """two simulations of the scenario, one after the other, that are handed the SAME DelayModel object (an experiment loop
+    that builds its delay model once); the second one's outputs are returned"""
+    from vt.runner import make_delay_model
+    dm = make_delay_model(sc.get('delay_model'))
+    _run(_build(sc, workdir, dm=dm), workdir)
+    return _run(_build(sc, workdir, dm=dm), workdir)
+
+
 def run_interleaved(sc, other, workdir):
     """the scenario's simulation is built, then another simulation is built AND run in the same interpreter, and only then
     the first one runs: its outputs must not depend on that"""
@@ -90,6 +99,8 @@ def main():
             res = {'first': a, 'second': b, 'hashseed': os.environ.get('PYTHONHASHSEED')}
             if msg.get('interleave') and 'machines' not in msg:
                 res['third'] = run_interleaved(sc, msg['interleave'], workdir)
+            if msg.get('shared_dm') and 'machines' not in msg and sc.get('delay_model'):
+                res['fourth'] = run_shared_delay_model(sc, workdir)
         except Exception as e:       # harness problem
             import traceback
             res = {'harness_error': traceback.format_exc()}
